@@ -243,3 +243,13 @@ for _oid, _h, _tier, _what, _fns in (
         ("O1array", "c10_o1_alloc_array", "thorough", "alloc_array of 0..4 ints: admitted iff it fits, charged exactly", ["VM::alloc_array", "VM::alloc_object"]),
         ("O2vecpush", "c10_o2_vecpush_growth_charged", "quick", "VecPushI on a full Vec with < 1 element of headroom: an error, or the storage the Vec owns afterwards is within the limit", ["ops/arrays.inc handler 153", "AelysVec::push"])):
     ob("C10", _oid, "runtime", "shell.rs", _h, path=SHELL_PATH + _h, tier=_tier, timeout=1500, args=U7, what=_what, functions=_fns, bounds=C10_BOUNDS, stubs=VM_STUBS)
+
+# ---------------------------------------------------------------- C07 (the verification/loading door: shares the verifier harnesses with C04)
+ob("C07", "V2", "runtime", "shell.rs", "c04_v2_from_u8_declared_only", path=SHELL_PATH + "c04_v2_from_u8_declared_only", tier="quick", timeout=300,
+   what="OpCode::from_u8(b) is Some exactly for the declared discriminants and never constructs an invalid enum value",
+   functions=["aelys_bytecode::OpCode::from_u8"], bounds="none: all 256 bytes", stubs=[])
+for _h, _shape, _tier in (("c04_v1_shape_w1_k0", "1 word, no constants", "quick"), ("c04_v1_shape_w1_k1_upval", "1 word, 1 constant, own upvalue descriptor", "thorough")):
+    ob("C07", "V1_" + _h.split("shape_")[1], "runtime", "shell.rs", _h, path=SHELL_PATH + _h, tier=_tier, timeout=3000, args=["--default-unwind", "5"],
+       what="verify_function on an arbitrary function object of this shape returns Ok or Err: no panic, no out-of-bounds index, no overflow",
+       functions=["vm::verifier::verify_function and everything under vm/verifier/**", "OpCode::from_u8"],
+       bounds="shape: %s; first word fully symbolic (any opcode byte, any operands); constants any bit pattern; global unwind 5" % _shape, stubs=VM_STUBS)
